@@ -198,6 +198,7 @@ type c07Rej struct {
 	label string
 	class string
 	rep   bool // member of the reduced alphabet used at depth 2 and (quick tier) at manager level
+	mid   bool // member of the medium alphabet (thorough depth 2): everything except flips of bits 1..7 of a byte
 	mk    func(x *c07Ctx) []byte
 }
 
@@ -245,6 +246,15 @@ func c07Hex(s string) []byte {
 	return b
 }
 
+// c07FlipBit0 reports whether a "flip bit N (byte B)" label flips bit 0 of its byte.
+func c07FlipBit0(label string) bool {
+	var bit, by int
+	if _, err := fmt.Sscanf(label, "flip bit %d (byte %d)", &bit, &by); err != nil {
+		return false
+	}
+	return bit%8 == 0
+}
+
 // c07Alphabet builds R for a context shape (role, world, length of the genuine message).
 func c07Alphabet(x *c07Ctx) []c07Rej {
 	var out []c07Rej
@@ -257,7 +267,7 @@ func c07Alphabet(x *c07Ctx) []c07Rej {
 	}
 	pOff := sOff + sLen
 	add := func(label, class string, rep bool, mk func(x *c07Ctx) []byte) {
-		out = append(out, c07Rej{label, class, rep, mk})
+		out = append(out, c07Rej{label, class, rep, rep || !strings.HasPrefix(label, "flip bit") || c07FlipBit0(label), mk})
 	}
 	// 1. every truncation length, and over-long messages
 	boundary := map[int]bool{0: true, 1: true, header.Len - 1: true, header.Len: true, eOff + 1: true, sOff - 1: true, sOff: true, sOff + 1: true, sOff + 10: true,
@@ -897,22 +907,36 @@ func TestVerifC07(t *testing.T) {
 
 	// ---- part 1, depth 2: quick = representatives x representatives; thorough = (whole alphabet x representatives) both ways
 	jobs = jobs[:0]
-	for wi, x := range wrs {
-		if !c.Thorough() && (wi/2 == 1 || wi/2 == 2) {
-			continue // quick: depth 2 on X25519/AES-GCM and P-256/ChaCha20-Poly1305 only (one cipher per curve)
-		}
+	for _, x := range wrs {
 		for _, r1 := range x.reps {
 			for _, r2 := range x.reps {
 				jobs = append(jobs, job{x, []c07Rej{r1, r2}})
 			}
 		}
-		if c.Thorough() {
+	}
+	if c.Thorough() { // medium alphabet first, the remaining bit flips last (a time cap then cuts the least diverse part)
+		for _, mid := range []bool{true, false} {
+			for _, x := range wrs {
+				for _, r1 := range x.alpha {
+					if r1.rep || r1.mid != mid {
+						continue
+					}
+					for _, r2 := range x.reps {
+						jobs = append(jobs, job{x, []c07Rej{r1, r2}}, job{x, []c07Rej{r2, r1}})
+					}
+				}
+			}
+		}
+		// and the medium alphabet squared (every truncation length, one flip per byte, all substitutions and crafted messages)
+		for _, x := range wrs {
 			for _, r1 := range x.alpha {
-				if r1.rep {
+				if r1.rep || !r1.mid {
 					continue
 				}
-				for _, r2 := range x.reps {
-					jobs = append(jobs, job{x, []c07Rej{r1, r2}}, job{x, []c07Rej{r2, r1}})
+				for _, r2 := range x.alpha {
+					if !r2.rep && r2.mid {
+						jobs = append(jobs, job{x, []c07Rej{r1, r2}})
+					}
 				}
 			}
 		}
